@@ -67,6 +67,9 @@ def child_steps(kind: str, name: str) -> list[dict[str, Any]]:
         return [{"op": "gate", "label": f"{name}.g"}]
     if kind == "fails":
         return [{"op": "fail", "tag": name}]  # fails at its first step: the scope's group cancels the body itself
+    if kind == "stale-fails":
+        # carries a cancellation request it absorbed earlier, then (released) fails with an ordinary error while the group is not aborting
+        return [{"op": "stale", "tag": name}, {"op": "gate", "label": f"{name}.g"}, {"op": "fail", "tag": name}]
     if kind == "slow-cleanup":
         return [{"op": "gate", "label": f"lp-{name}", "on_cancel_sleep": 4}]  # blocked; once cancelled its cleanup takes four loop turns
     if kind == "cleanup-fails":
@@ -108,6 +111,13 @@ def small_programs():  # noqa: ANN201
         blk["convert_cancel"] = True
         blk["catch"] = "exceptions"
         yield [blk, {"op": "gate", "label": "after.handled"}]
+    # a spawned task that carries a stale cancellation count fails (the group cancels the body itself), the body swallows that cancellation
+    # and leaves the block normally; the exit waits for a task that is slow to clean up
+    for children in (["stale-fails", "slow-cleanup"], ["slow-cleanup", "stale-fails", "blocked"]):
+        uid = itertools.count(1)
+        blk = make_block("out", [], children, [], uid)
+        blk["convert_cancel"] = "swallow"
+        yield [blk, {"op": "gate", "label": "after.swallowed"}]
     # the body ends with an exception (an ordinary one, a BaseException subclass of the application, a group) which the surrounding code
     # handles; the exit waits for a task that is slow to clean up
     for exit_kind in ("raise-exc", "raise-base", "raise-group", "raise-stopasync"):
